@@ -55,6 +55,9 @@ func runC18(c *core.Ctx) {
 	shared := false // some *Ptr declarations store into the same variable: legal, and it must not soften the duplicate-name check
 	inSub := r.Intn(3) == 0
 	k := 1 + r.Intn(6)
+	if r.Intn(15) == 0 {
+		k = 9 + r.Intn(6)
+	}
 	usedOpt := map[string]bool{}
 	maybeOpt := map[string]bool{}
 	afterPanic := false
